@@ -4,7 +4,7 @@
 # The copy lives outside /repo and /verif and is removed afterwards.
 set -e
 D=$(mktemp -d /tmp/mutrepo-XXXXXX)
-trap 'rm -rf "$D"' EXIT
+trap 'rm -rf "$D" "$D.evidence" "$D.replays"' EXIT
 rsync -a --exclude .git --exclude __pycache__ --exclude '*.egg-info' /repo/ "$D/"
 if [ "$1" = "-e" ]; then
   sed -i "$2" "$D/$3"; shift 3
@@ -14,4 +14,4 @@ else
 fi
 [ "$1" = "--" ] && shift
 (cd /repo && git diff --no-index --stat . "$D" 2>/dev/null | tail -1) || true
-VERIF_EVIDENCE_DIR=/tmp/mut-evidence VERIF_REPLAY_DIR=/tmp/mut-replays VERIF_REPO="$D" "$@"
+VERIF_EVIDENCE_DIR=$D.evidence VERIF_REPLAY_DIR=$D.replays VERIF_REPO="$D" "$@"
